@@ -28,6 +28,7 @@ package cache
 
 import (
 	"bytes"
+	"errors"
 	"sync"
 	"time"
 
@@ -54,6 +55,9 @@ const (
 
 // defaultHitForPassSeconds default hit for pass: 300 seconds
 const defaultHitForPassSeconds = 300
+
+// ErrInvalidStoreData the data of store is invalid
+var ErrInvalidStoreData = errors.New("the data of store is invalid")
 
 type (
 	// httpCache http cache (only for same request method+host+uri)
@@ -211,7 +215,24 @@ func (hc *httpCache) initFromStore() (err error) {
 	if err != nil {
 		return
 	}
-	return hc.FromBytes(data)
+	// 先解析至临时的缓存，成功且数据有效才使用，
+	// 避免数据有误（如被截断）时只恢复了部分字段，导致缓存状态异常（如hit但无响应数据或永不过期）
+	tmp := &httpCache{}
+	err = tmp.FromBytes(data)
+	if err != nil {
+		return
+	}
+	// 保存至store的只可能是hit 或 hit for pass，且均有过期时间
+	if (tmp.status != StatusHit && tmp.status != StatusHitForPass) ||
+		tmp.expiredAt == 0 ||
+		(tmp.status == StatusHit && tmp.response == nil) {
+		return ErrInvalidStoreData
+	}
+	hc.status = tmp.status
+	hc.response = tmp.response
+	hc.createdAt = tmp.createdAt
+	hc.expiredAt = tmp.expiredAt
+	return
 }
 
 // saveToStore save cache to store
